@@ -907,6 +907,13 @@ class PytatoKeyBuilder(LoopyKeyBuilder):
     update_for_uint32 = update_for_numpy_integer
     update_for_uint64 = update_for_numpy_integer
 
+    def update_for_numpy_scalar(self, key_hash: Any, key: Any) -> None:
+        # The bytes alone do not identify a scalar: np.float64(2.0) and
+        # np.int64(4611686018427387904) (or a complex64 and a float64) share
+        # them. (NumPy integers never get here, see above.)
+        self.rec(key_hash, key.dtype)
+        super().update_for_numpy_scalar(key_hash, key)
+
     def update_for_TaggableCLArray(self, key_hash: Any, key: Any) -> None:
         from arraycontext.impl.pyopencl.taggable_cl_array import (  # pylint: disable=import-error
             TaggableCLArray,
